@@ -10,6 +10,7 @@ atoms constrained only by their C type and by the branches taken.
 Everything a rule may want to know is appended to the path's trace as an
 event (dict); obligations (bounds, overflow, null) are events with a verdict.
 """
+import os
 import sys
 from .lin import Lin, Facts, INF
 from .frontend import AnalysisBroken, node_pos
@@ -278,6 +279,7 @@ class Interp:
         if len(params) != len(args):
             raise Unsupported('arity mismatch calling %s' % fn['name'])
         for p, a in zip(params, args):
+            self.prog.decl_by_id.setdefault(p['id'], p)
             st.mem[('L', depth, p['id'])] = a
         st.ev('enter', node, name=fn['name'], args=list(args))
         outs = []
@@ -382,6 +384,7 @@ class Interp:
         for d in n.get('inner', ()):
             if d['kind'] != 'VarDecl':
                 continue
+            self.prog.decl_by_id.setdefault(d['id'], d)
             nxt = []
             for s in cur:
                 depth = len(s.stack) - 1
@@ -601,18 +604,26 @@ class Interp:
         rounds = 0
         while pending:
             rounds += 1
-            if rounds > 60:
-                raise Unsupported('loop at line %s does not stabilise' % line)
             pk, arrivals = pending.popitem()
+            # the budget is per disjunct (each needs its own widening sequence); the number of
+            # disjuncts is bounded by the access-mode partitions a path can have decided
+            if heads.get(('n', pk), 0) > 40 or rounds > 600:
+                raise Unsupported('loop at line %s does not stabilise' % line)
             cur = heads.get(pk)
             if cur is None:
                 firsts[pk] = tuple(s.trace for s in arrivals)
             it = heads.get(('n', pk), 0) + 1
             heads[('n', pk)] = it
             cand = arrivals if cur is None else [cur] + arrivals
-            new = self.join(cand, tag, base, widen=(it >= 2), prev=cur, hard=(it >= 7))
+            # disjuncts feed each other, so a head is revisited for arrivals that are new only because
+            # another head moved: the hard (fact-dropping) widening waits correspondingly longer
+            nparts = sum(1 for k_ in heads if not (isinstance(k_, tuple) and k_ and k_[0] == 'n'))
+            new = self.join(cand, tag, base, widen=(it >= 2), prev=cur, fast=(it >= 7), hard=(it >= 7 + 5 * max(0, nparts - 1)),
+                            banned=heads.setdefault(('n', 'banned', pk), set()))
             if cur is not None and self.same_state(cur, new):
                 continue
+            if os.environ.get('CATSA_LOOPDBG') and cur is not None and rounds > 12:
+                self._loopdbg(line, rounds, pk, cur, new)
             heads[pk] = new
             bk, _ = one_pass(new)
             for b in bk:
@@ -629,17 +640,56 @@ class Interp:
             exits.extend(exf)
         return exits
 
+    def _loopdbg(self, line, rounds, pk, a, b):
+        import sys
+        w = sys.stderr.write
+        w('LOOPDBG line %s round %s pk %s\n' % (line, rounds, pk))
+        for k in set(a.mem) | set(b.mem):
+            if a.mem.get(k) != b.mem.get(k):
+                w('  mem %s: %s -> %s\n' % (k, a.mem.get(k), b.mem.get(k)))
+        for k in set(a.ghost) | set(b.ghost):
+            if a.ghost.get(k) != b.ghost.get(k):
+                w('  ghost %s: %s -> %s\n' % (k, a.ghost.get(k), b.ghost.get(k)))
+        for k in set(a.pnull) | set(b.pnull):
+            if a.pnull.get(k) != b.pnull.get(k):
+                w('  pnull %s: %s -> %s\n' % (k, a.pnull.get(k), b.pnull.get(k)))
+        for nm in ('iv', 'ub', 'ex'):
+            da, db = getattr(a.facts, nm), getattr(b.facts, nm)
+            for k in set(da) | set(db):
+                if da.get(k) != db.get(k):
+                    w('  %s %s: %s -> %s\n' % (nm, k, da.get(k), db.get(k)))
+
     def _part_key(self, s):
         # the access mode of the variable the machine is working on (canonical object names of the explorer)
-        return tuple((a, s.facts.iv.get(a), s.facts.ex.get(a)) for a in ('VAR.access', 'UVAR.access') if a in s.facts.iv)
+        # (the key is the set of modes still possible, however the path came to know it)
+        out = []
+        for a in ('VAR.access', 'UVAR.access'):
+            if a not in s.facts.iv:
+                continue
+            lo, hi = s.facts.iv[a]
+            ex = s.facts.ex.get(a) or ()
+            if hi - lo <= 8:
+                out.append((a, tuple(x for x in range(lo, hi + 1) if x not in ex)))
+            else:
+                out.append((a, (lo, hi), tuple(sorted(ex))))
+        return tuple(out)
 
     # ---- join -------------------------------------------------------------
     def same_state(self, a, b):
         if a.mem != b.mem or a.pnull != b.pnull or a.ghost != b.ghost:
             return False
         fa, fb = a.facts, b.facts
-        if fa.ub != fb.ub or fa.ex != fb.ex:
+        if fa.ex != fb.ex:
             return False
+        if fa.ub != fb.ub:
+            # relations stored in one and only derivable in the other are the same knowledge
+            for f1, f2 in ((fa, fb), (fb, fa)):
+                for k, c in f1.ub.items():
+                    c2 = f2.ub.get(k)
+                    if c2 is not None and c2 <= c:
+                        continue
+                    if f2.upper(Lin(k, 0), 2, c) > c:
+                        return False
         if fa.iv == fb.iv:
             return True
         ar = self.atom_range
@@ -649,7 +699,7 @@ class Interp:
                 return False
         return True
 
-    def join(self, states, tag, base, widen=False, prev=None, namefn=None, force=(), hard=False):
+    def join(self, states, tag, base, widen=False, prev=None, namefn=None, force=(), hard=False, fast=False, banned=None):
         """upper bound of path states.  Integer locations whose values differ are
         abstracted to canonical atoms (namefn(loc), default J:<tag>:<loc>); each
         state's facts are re-expressed over those atoms (pivot substitution), and
@@ -779,6 +829,7 @@ class Interp:
         # combine
         rf = res.facts
         rf.iv, rf.ex = combine_iv_ex(abst)
+        fast = fast or hard
         if widen and prev is not None:
             dn = set(n_ + "'" for n_ in diff.values())
             for a in list(rf.iv.keys()):
@@ -788,9 +839,9 @@ class Interp:
                 lo, hi = rf.iv[a]
                 tlo, thi = self.atom_range.get(a, (-INF, INF))
                 if lo < plo:
-                    lo = tlo if hard else widen_lo(lo, tlo)
+                    lo = tlo if fast else widen_lo(lo, tlo)
                 if hi > phi:
-                    hi = thi if hard else widen_hi(hi, thi)
+                    hi = thi if fast else widen_hi(hi, thi)
                 if (lo, hi) != (-INF, INF):
                     rf.iv[a] = (lo, hi)
                 else:
@@ -802,9 +853,9 @@ class Interp:
                     lo, hi = rf.iv[name + "'"]
                     tlo, thi = self._loc_type_range(k)
                     if lo < plo:
-                        lo = tlo if hard else widen_lo(lo, tlo)
+                        lo = tlo if fast else widen_lo(lo, tlo)
                     if hi > phi:
-                        hi = thi if hard else widen_hi(hi, thi)
+                        hi = thi if fast else widen_hi(hi, thi)
                     if (lo, hi) != (-INF, INF):
                         rf.iv[name + "'"] = (lo, hi)
                     else:
@@ -854,7 +905,10 @@ class Interp:
                         l = Lin.atom(x + "'").sub(Lin.atom(y + "'"))
                         cands.add(l.terms)
                         cands.add(l.scale(-1).terms)
+        unprime = lambda a: a[:-1] if a.endswith("'") else a
         for terms in cands:
+            if banned and Lin(terms, 0).rename(unprime).terms in banned:
+                continue
             best = -INF
             l = Lin(terms, 0)
             for f in abst:
@@ -882,8 +936,12 @@ class Interp:
                     else:
                         # negative constants grow towards 0 through the negated thresholds
                         w = -max((t for t in THRESHOLDS if t <= -rf.ub[terms]), default=0)
-                    if w == INF or hard:
+                    if w == INF or fast:
                         del rf.ub[terms]
+                        if banned is not None and fast:
+                            # a relation given up by the accelerated widening stays given up (it may
+                            # be re-derivable from others; storing it again would oscillate)
+                            banned.add(pt)
                     else:
                         rf.ub[terms] = w
         if hard and prev is not None:
@@ -922,6 +980,14 @@ class Interp:
             rf.ub = {Lin(k, 0).rename(lambda a: ren.get(a, a)).terms: v for k, v in rf.ub.items()}
         for k, name in diff.items():
             res.mem[k] = Lin.atom(name)
+            # the atom stands for the content of a typed location: its type range is a fact of every
+            # state (widening falls back to it instead of to "unknown")
+            tr = self._loc_type_range(k)
+            if tr != (-INF, INF):
+                self.atom_range.setdefault(name, tr)
+                lo, hi = rf.iv.get(name, (-INF, INF))
+                if lo < tr[0] or hi > tr[1]:
+                    rf.iv[name] = (max(lo, tr[0]), min(hi, tr[1]))
         for name, v in s0.pnull.items():
             if all(s.pnull.get(name) == v for s in states):
                 res.pnull[name] = v
